@@ -58,6 +58,23 @@ NOT_STRICT = {
     "QMPStar": "multilevel (as QRRT)",
 }
 MULTITHREADED = {"pRRT", "pSBL", "CForest", "AnytimePathShortening"}
+# The (asymmetric) Dubins space has hasSymmetricInterpolate() == false: the curve from b to a is not the reverse of the
+# curve from a to b.  Only planners that traverse every motion in the direction they validated it "support" it; the
+# others (two trees joined by reversing one of them, undirected roadmaps, rewiring through shared edge flags) are given
+# Reeds-Shepp only.  The symmetric Dubins variant is not used: its interpolation is not prefix-consistent (the curve
+# from a to an intermediate point of a->b may be the reversed b-side curve), so planners that keep the last valid state
+# of a partially valid motion (KPIECE1, LBKPIECE1) legitimately report unvalidated curves there - C07's subject.  (Trial on the unchanged tree: BKPIECE1, LBKPIECE1, SBL, EITstar,
+# EIRMstar, RRTXstatic, RRTsharp and AnytimePathShortening report paths on asymmetric Dubins whose reversed edges cross
+# obstacles; by design, not counted as findings.)
+DIRECTED_SAFE = {"RRT", "RRTConnect", "RRTstar", "InformedRRTstar", "SORRTstar", "LazyRRT", "TRRT", "LBTRRT", "RLRT", "EST",
+                 "ProjEST", "KPIECE1", "PDST", "STRIDE", "FMT", "SST", "pRRT"}
+
+
+def car_kind(name, k):
+    """the car-like space kind number k (0, 1, ...) for a planner"""
+    if name in DIRECTED_SAFE:
+        return ["dubins", "rs"][k % 2]
+    return "rs"
 SOLUTION = ("EXACT_SOLUTION", "APPROXIMATE_SOLUTION")
 WATCHDOG = [45]          # seconds before a run that neither returns nor polls its termination condition is killed
 
@@ -91,10 +108,10 @@ class Problem:
 
     # ---- geometry of the space, recomputed here (independent of OMPL)
     def posdim(self):
-        return {"rv": len(self.lo), "se2": 2, "se3": 3, "dubins": 2, "rs": 2}[self.kind]
+        return {"rv": len(self.lo), "se2": 2, "se3": 3, "dubins": 2, "dubsym": 2, "rs": 2}[self.kind]
 
     def nreals(self):
-        return {"rv": len(self.lo), "se2": 3, "se3": 7, "dubins": 3, "rs": 3}[self.kind]
+        return {"rv": len(self.lo), "se2": 3, "se3": 7, "dubins": 3, "dubsym": 3, "rs": 3}[self.kind]
 
     def linear_position(self):
         return self.kind in ("rv", "se2", "se3")
@@ -103,7 +120,7 @@ class Problem:
         for i in range(self.posdim()):
             if r[i] - EPS > self.hi[i] or r[i] + EPS < self.lo[i]:
                 return False
-        if self.kind in ("se2", "dubins", "rs"):
+        if self.kind in ("se2", "dubins", "dubsym", "rs"):
             return -PI <= r[2] < PI
         if self.kind == "se3":
             n = math.sqrt(r[3] * r[3] + r[4] * r[4] + r[5] * r[5] + r[6] * r[6])
@@ -149,7 +166,7 @@ class Problem:
         n = self.posdim()
         if any(abs(a[i] - b[i]) > 2 * EPS for i in range(n)):
             return False
-        if self.kind in ("se2", "dubins", "rs"):
+        if self.kind in ("se2", "dubins", "dubsym", "rs"):
             return abs(a[2] - b[2]) < 2 * EPS
         if self.kind == "se3":
             dq = abs(a[3] * b[3] + a[4] * b[4] + a[5] * b[5] + a[6] * b[6])
@@ -163,8 +180,8 @@ class Problem:
             return "space rv %d %s" % (len(self.lo), lohi)
         if self.kind in ("se2", "se3"):
             return "space %s %s" % (self.kind, lohi)
-        if self.kind == "dubins":
-            return "space dubins %s 0 %s" % (f2b(self.rho), lohi)
+        if self.kind in ("dubins", "dubsym"):
+            return "space dubins %s %d %s" % (f2b(self.rho), 1 if self.kind == "dubsym" else 0, lohi)
         return "space rs %s %s" % (f2b(self.rho), lohi)
 
     def boxes_line(self):
@@ -199,7 +216,7 @@ class Problem:
 
 def rand_state(r, kind, lo, hi):
     pos = [r.uniform(lo[i], hi[i]) for i in range(len(lo))]
-    if kind in ("se2", "dubins", "rs"):
+    if kind in ("se2", "dubins", "dubsym", "rs"):
         return pos + [r.uniform(-PI, PI * 0.999)]
     if kind == "se3":
         q = [r.uniform(-1, 1) for _ in range(4)]
@@ -212,7 +229,7 @@ def rand_state(r, kind, lo, hi):
 
 def gen_env(r, kind, nboxes=None, pdim=None):
     """random bounds + boxes + a valid start and goal."""
-    d = {"rv2": 2, "rv3": 3, "rv4": 4, "se2": 2, "se3": 3, "dubins": 2, "rs": 2}[kind]
+    d = {"rv2": 2, "rv3": 3, "rv4": 4, "se2": 2, "se3": 3, "dubins": 2, "dubsym": 2, "rs": 2}[kind]
     k = "rv" if kind.startswith("rv") else kind
     off = r.choice([0.0, 0.0, -2.0, 5.0])
     scale = r.choice([1.0, 1.0, 4.0])
@@ -245,7 +262,7 @@ def gen_env(r, kind, nboxes=None, pdim=None):
 
 def extent(p):
     e = math.sqrt(sum((p.hi[i] - p.lo[i]) ** 2 for i in range(len(p.lo))))
-    if p.kind in ("se2", "dubins", "rs"):
+    if p.kind in ("se2", "dubins", "dubsym", "rs"):
         e += 0.5 * PI
     if p.kind == "se3":
         e += 0.5 * PI
@@ -394,6 +411,10 @@ def parse_run(lines):
             R["sols"][int(t[1])]["edges"][int(t[2])] = (int(d["n"]), b2f(d["d"]), parse_states(t[5:]))
         elif k == "dense":
             R["sols"][int(t[1])]["dense"][int(t[2])] = (int(kv(t[3:4])["m"]), parse_states(t[4:]))
+        elif k == "disc":
+            if len(t) > 2 and t[1] != "skipped":
+                d = kv(t[3:])
+                R.setdefault("disc", {})[int(t[2])] = (int(d["k"]), b2f(d["gap"]), b2f(d["t0"]), b2f(d["t1"]), b2f(d["d"]))
         elif k == "sols":
             R["sols_total"] = int(kv(t[1:])["total"])
         elif k == "queries":
@@ -680,7 +701,10 @@ def driver_script(p, R):
     for s in p.starts:
         d.append("start " + " ".join(map(f2b, s)))
     d += R["draws"]
-    d += ["solve", "tree", "path", "pdef"]
+    if p.planner == "RRTConnect":
+        d += ["ptc %d" % p.budget, "solvec", "trees", "treeg", "path", "pdef"]
+    else:
+        d += ["solve", "tree", "path", "pdef"]
     return d
 
 
@@ -691,28 +715,44 @@ def lockstep_one(ck, hbin, p):
         return False, "harness failed: rc=%s %s %s" % (R.get("rc"), R.get("exception"), R.get("stderr", "")[-300:]), [], [], R
     ds = driver_script(p, R)
     model, rc, err = ck.run_bin(ck.driver(DRIVER), ds)
-    if rc != 0 or model is None or any(m == "bad-op" for m in model[:-4]):
+    nout = 5 if p.planner == "RRTConnect" else 4
+    if rc != 0 or model is None or len(model) < nout or any(m == "bad-op" for m in model):
         return False, "driver failed rc=%s" % rc, R["L"], model or [], R
-    m = model[-4:]
-    L = R["L"]
+    m = model[-nout:]
+    L = {l.split()[0].split("=")[0]: l for l in R["L"]}
     d = kv(m[0].split())
-    impl = [L[0], L[1], L[2], L[3]]
-    mod = ["status=%s bool=%s added=%s" % (d["status"], d["bool"], d["added"]), m[1], m[2], m[3]]
     what = None
-    if d["unused"] != "0":
+    if p.planner == "RRTConnect":
+        names = ["status", "start tree", "goal tree", "path", "problem definition", "counters"]
+        misc = kv(L.get("misc", "").split())
+        impl = [L.get("status", ""), L.get("treeS", ""), L.get("treeG", ""), L.get("path", ""), L.get("pdef", ""),
+                "ngoal=%s starttree=%s" % (misc.get("ngoal"), misc.get("starttree"))]
+        mod = ["status=%s bool=%s added=%s" % (d["status"], d["bool"], d["added"]), m[1], m[2], m[3], m[4],
+               "ngoal=%s starttree=%s" % (d["ngoal"], d["starttree"])]
+        nu = len([x for x in R["draws"] if x.split()[1] == "u"])
+        if d["fuelout"] != "0":
+            what = "model ran out of connect fuel"
+        elif d["short"] != "0":
+            what = "the recorded draws ran out before the model's termination condition fired"
+    else:
+        names = ["status", "tree", "path", "problem definition"]
+        impl = [L.get("status", ""), L.get("tree", ""), L.get("path", ""), L.get("pdef", "")]
+        mod = ["status=%s bool=%s added=%s" % (d["status"], d["bool"], d["added"]), m[1], m[2], m[3]]
+    if what is not None:
+        pass
+    elif d["unused"] != "0":
         what = "model stopped early: %s recorded draws unused" % d["unused"]
     elif d["lvs"] != R["cfg"]["lvs"]:
         what = "longest valid segment differs"
     elif "range" in R["cfg"] and d["range"] != R["cfg"]["range"]:
         what = "effective range differs"
     else:
-        names = ["status", "tree", "path", "problem definition"]
-        for i in range(4):
+        for i in range(len(names)):
             if impl[i] != mod[i]:
                 what = names[i] + " differs"
                 break
     # cross-check with getPlannerData sizes
-    if what is None and "pdata" in R:
+    if what is None and "pdata" in R and p.planner == "RRT":
         nt = int(d["ntree"])
         if int(R["pdata"]["v"]) > nt:
             what = "getPlannerData reports %s vertices, the tree has %d" % (R["pdata"]["v"], nt)
@@ -720,7 +760,7 @@ def lockstep_one(ck, hbin, p):
 
 
 # ---------------------------------------------------------------------------------- judging a run
-def judge(ck, hbin, p, R=None):
+def judge(ck, hbin, p, R=None, attack=True):
     """run one problem through the oracle; report failures.  returns True if fine."""
     if R is None:
         R = run_problem(ck, hbin, p)
@@ -730,10 +770,15 @@ def judge(ck, hbin, p, R=None):
     if R.get("timeout"):
         status = "hang"
         ck.notes.append("hang: %s %s seed=%d budget=%d" % (p.planner, p.tag, p.seed, p.budget))
+        ck.extra_cov.setdefault("hangs", []).append("%s [%s seed=%d budget=%d]" % (p.planner, p.tag, p.seed, p.budget))
+        ck.log("HANG (C03's subject, no status for C01 to judge): %s [%s seed=%d budget=%d] neither returned nor polled its "
+               "termination condition within %d s" % (p.planner, p.tag, p.seed, p.budget, WATCHDOG[0]))
     elif status == "crash" or ((not R.get("done") or R.get("rc") != 0) and not R.get("na")):
         status = "crash"
         err = [l for l in (R.get("stderr") or "").splitlines() if "SUMMARY" in l]
         ck.notes.append("crash: %s %s seed=%d budget=%d %s" % (p.planner, p.tag, p.seed, p.budget, (err or [""])[0][:160]))
+        ck.extra_cov.setdefault("crashes", []).append("%s [%s seed=%d budget=%d] %s" % (p.planner, p.tag, p.seed, p.budget, (err or [""])[0][:160]))
+        ck.log("CRASH inside solve() (no status for C01 to judge): %s [%s seed=%d budget=%d] %s" % (p.planner, p.tag, p.seed, p.budget, (err or [""])[0][:160]))
     nontrivial = status in SOLUTION and bool(R["sols"]) and len(R["sols"][0]["states"]) >= 3
     ck.case(p.key(), nontrivial)
     ck.count("runs")
@@ -755,6 +800,25 @@ def judge(ck, hbin, p, R=None):
     if status in SOLUTION:
         ck.sample({"problem": p.describe(), "status": status, "path_states": len(R["sols"][0]["states"]) if R["sols"] else 0,
                    "validity_queries": R.get("nq")})
+    if not fails and attack and ck.lean_ok is not None:
+        try:
+            att = gap_attack(ck, hbin, p, R)
+        except RuntimeError:
+            att = None
+        if att is not None:
+            q, R2, fails2, same = att
+            if fails2:
+                ck.count("attack:succeeded")
+                rec = {"engine": "planners", "planner": p.planner, "clause": "gap-attack", "class": p.tag, "space": p.kind,
+                       "interm": p.interm or 0,
+                       "what": "unobserved-gap attack: an edge of the reported path had an unqueried stretch longer than twice the "
+                               "resolution length; with a thin obstacle inside it the same run reports: " + "; ".join(f[1] for f in fails2)[:400]}
+                new = ck.report(rec, script=q.script(), expected="pathIsReal on the attacked environment (same planner, seed, budget)",
+                                observed={"status": R2.get("status"), "same_path_as_before": bool(same),
+                                          "fails": [list(f[:2]) for f in fails2][:6]}, engine="planners")
+                if new:
+                    ck.log("VIOLATION %s gap-attack [%s seed=%d budget=%d]: %s" % (p.planner, p.tag, p.seed, p.budget, fails2[0][1][:200]))
+                return False
     if not fails:
         return True
     seen = set()
@@ -804,6 +868,8 @@ def problem_from_script(lines):
             elif k == "dubins":
                 kw["rho"] = b2f(t[2])
                 n, vals = 2, [b2f(x) for x in t[4:]]
+                if t[3] == "1":
+                    k = "dubsym"
             else:
                 kw["rho"] = b2f(t[2])
                 n, vals = 2, [b2f(x) for x in t[3:]]
@@ -841,11 +907,88 @@ def problem_from_script(lines):
 
 
 # ---------------------------------------------------------------------------------- the unobserved-gap attack
+def worst_discipline_gap(p, R):
+    """(edge, gap length, t0, t1, d) of the longest stretch between consecutive queried-valid points on one reported edge of
+    the top solution, as attributed by the harness (`disc` lines); None without a solution."""
+    best = None
+    for j, (k, gap, t0, t1, d) in (R.get("disc") or {}).items():
+        if best is None or gap > best[1]:
+            best = (j, gap, t0, t1, d)
+    return best
+
+
+def build_attack_boxes(p, R, T, edge, t0, t1, d, lvs):
+    """a chain of small cubes covering the middle of the unqueried stretch [t0, t1] of the given edge, thin enough to contain
+    the position of none of the states the transcript T asked about.  Returns a list of boxes or None (not constructible)."""
+    st = R["sols"][0]["states"]
+    a, b = st[edge][:p.pdim], st[edge + 1][:p.pdim]
+    plen = math.sqrt(sum((b[i] - a[i]) ** 2 for i in range(p.pdim)))
+    if plen <= 0.0 or d <= 0.0:
+        return None
+    G = (t1 - t0) * d
+    margin_t = (G - 2.0 * lvs) / 4.0 / d             # keep clear of both ends; what stays covered is G/2 + lvs > 2 lvs
+    u0, u1 = t0 + margin_t, t1 - margin_t
+    P0 = [a[i] + u0 * (b[i] - a[i]) for i in range(p.pdim)]
+    P1 = [a[i] + u1 * (b[i] - a[i]) for i in range(p.pdim)]
+    seg = [P1[i] - P0[i] for i in range(p.pdim)]
+    seg2 = sum(x * x for x in seg)
+    if seg2 <= 0.0:
+        return None
+    dmin = float("inf")
+    pts = [x for _, x in T] + p.starts + [p.goal]
+    for x in pts:
+        q = x[:p.pdim]
+        w = sum((q[i] - P0[i]) * seg[i] for i in range(p.pdim)) / seg2
+        w = min(1.0, max(0.0, w))
+        dist = math.sqrt(sum((q[i] - (P0[i] + w * seg[i])) ** 2 for i in range(p.pdim)))
+        dmin = min(dmin, dist)
+    h = 0.5 * dmin / math.sqrt(p.pdim)
+    slen = math.sqrt(seg2)
+    if h <= 0.0 or slen / h > 3000:
+        return None
+    n = int(math.ceil(slen / h)) + 1
+    boxes = []
+    for i in range(n + 1):
+        c = [P0[k] + (i / float(n)) * seg[k] for k in range(p.pdim)]
+        boxes.append(([c[k] - h for k in range(p.pdim)], [c[k] + h for k in range(p.pdim)]))
+    return boxes
+
+
 def gap_attack(ck, hbin, p, R):
-    """DESIGN 1.4: for a reported path, find the longest stretch between consecutive *queried-valid* states attributed to
-    an edge; if it is longer than 2 x resolution, drop a thin obstacle strictly inside it that touches no queried state,
-    re-run the same planner with the same seed and hand back the (now invalid) result."""
-    return None
+    """DESIGN 1.4, the unobserved-gap attack.  If some reported edge has a stretch longer than 2 x resolution between
+    consecutive queried-valid points, drop a thin obstacle strictly inside that stretch that contains none of the states
+    the run asked about, re-run the same planner with the same seed and budget, and judge the result: the same computation
+    must yield the same path (undisciplined_refutable), which is now invalid for longer than allowed.
+    returns None (no over-long gap / not applicable) or (problem', R', fails)."""
+    if R.get("status") not in SOLUTION or not R.get("sols") or R["sols"][0].get("bad"):
+        return None
+    w = worst_discipline_gap(p, R)
+    if w is None:
+        return None
+    edge, gap, t0, t1, d = w
+    lvs = R["lvs"]
+    ck.extra_cov["max-unqueried-gap-over-lvs"] = max(ck.extra_cov.get("max-unqueried-gap-over-lvs", 0.0), round(gap / lvs, 4))
+    if gap <= 2.0 * lvs * (1 + 1e-9):
+        return None
+    ck.count("attack:over-long-unqueried-gap")
+    ck.count("attack:over-long-unqueried-gap:" + p.planner)
+    if p.planner in MULTITHREADED or not p.linear_position():
+        ck.count("attack:not-applicable(multithreaded or curved space)")
+        return None
+    T = run_problem(ck, hbin, p.clone(trace=1))
+    if T.get("status") != R.get("status") or not T.get("sols") or T["sols"][0]["states"] != R["sols"][0]["states"]:
+        ck.count("attack:run-not-reproducible")
+        return None
+    boxes = build_attack_boxes(p, R, T["queries_log"], edge, t0, t1, d, lvs)
+    if boxes is None:
+        ck.count("attack:not-constructible(queried states too close)")
+        return None
+    q = p.clone(boxes=list(p.boxes) + boxes, tag=p.tag)
+    R2 = run_problem(ck, hbin, q)
+    same = R2.get("status") == R.get("status") and R2.get("sols") and R2["sols"][0]["states"] == R["sols"][0]["states"]
+    ck.count("attack:rerun-same-path" if same else "attack:rerun-different-path")
+    fails, _ = path_is_real(q, R2)
+    return q, R2, fails, same
 
 
 # ---------------------------------------------------------------------------------- the check
@@ -867,10 +1010,10 @@ def pollcap_for(name, budget, which=None):
 def plan_quick(ck, names):
     """~3 environments x 2 budgets per planner + a rotating share of the adversarial generators."""
     jobs = []
-    kinds = ["rv2", "rv3", "se2"]
     for pi, name in enumerate(names):
         r = ck.rng.fork("q:" + name)
-        for e in range(3):
+        kinds = ["rv2", "rv3", "se2", car_kind(name, pi + ck.seed)]
+        for e in range(3 if name in MULTILEVEL else 4):
             kind = kinds[e] if name not in MULTILEVEL else "rv3"
             env = gen_env(r, kind, pdim=2 if name in MULTILEVEL else None)
             for budget in (r.choice([150, 400]), r.choice([4000, 8000])):
@@ -889,11 +1032,13 @@ def plan_quick(ck, names):
 
 def plan_thorough(ck, names):
     jobs = []
-    kinds = ["rv2", "rv2", "rv3", "se2", "rv4", "se3", "rv2", "rv3"]
+    kinds = ["rv2", "dubins", "rv3", "se2", "rv4", "se3", "rs", "rv3"]
     for pi, name in enumerate(names):
         r = ck.rng.fork("t:" + name)
         for e in range(14):
             kind = kinds[e % len(kinds)] if name not in MULTILEVEL else "rv3"
+            if kind in ("dubins", "rs"):
+                kind = car_kind(name, e)
             env = gen_env(r, kind, pdim=2 if name in MULTILEVEL else None)
             for budget in (100, 600, 3000, 12000)[: (4 if e < 6 else 2)]:
                 jobs.append(env.clone(planner=name, seed=r.below(100000), budget=budget, pollcap=pollcap_for(name, budget),
@@ -936,13 +1081,22 @@ def run(ck):
     ck.assumptions += ["state validity is a pure function of the state (box environments)",
                        "interpolation is geodesic for the spaces used (C07), so curve length along an edge is t * distance",
                        "the strict form is demanded only of planners not listed in NOT_STRICT (reasons given there)"]
-    WATCHDOG[0] = 45 if ck.tier == "quick" else 150
-    ck.lean_build(["OmplModel.Props.C01", DRIVER])
-    ck.audit()
+    WATCHDOG[0] = 40 if ck.tier == "quick" else 150
+    ck.lean_build(LEAN_TARGETS)
+    ck.audit(roots=["Drv.RRT"])
     if ck.tier == "thorough" and ck.lean_ok:
         ck.leanchecker(["OmplModel.Props.C01"])
     hbin = ck.build_harness("planners", ["planners.cpp"], link_ompl=True)
     workers = min(16, os.cpu_count() or 4)
+    # one pool for everything; the planner runs (among them the few that hang until the watchdog) are submitted first so
+    # that a hang overlaps with all the other work instead of adding to the wall time
+    ex = concurrent.futures.ThreadPoolExecutor(workers)
+    names = GEOMETRIC + MULTILEVEL
+    jobs = plan_quick(ck, names) if ck.tier == "quick" else plan_thorough(ck, names)
+    ck.log("%d planner runs on %d workers" % (len(jobs), workers))
+    pfut = [ex.submit(run_problem, ck, hbin, p) for p in jobs]
+    ljobs = lockstep_jobs(ck, 40 if ck.tier == "quick" else 400) if ck.lean_ok else []
+    lfut = [ex.submit(lockstep_one, ck, hbin, p) for p in ljobs]
 
     # ---- corpus first
     for name, lines, tag in corpus():
@@ -964,9 +1118,7 @@ def run(ck):
 
     # ---- (a) RRT lock-step
     if ck.lean_ok:
-        ljobs = lockstep_jobs(ck, 40 if ck.tier == "quick" else 400)
-        with concurrent.futures.ThreadPoolExecutor(workers) as ex:
-            results = list(ex.map(lambda p: lockstep_one(ck, hbin, p), ljobs))
+        results = [f.result() for f in lfut]
         nbad = 0
         for p, (ok, what, impl, mod, R) in zip(ljobs, results):
             ck.traces_validated += 1
@@ -1004,11 +1156,8 @@ def run(ck):
             ck.log("lock-step disagreement (%s) seed=%d iters=%d interm=%s" % (what, p.seed, p.budget, p.interm))
 
     # ---- (b) all planners through the spec oracle
-    names = GEOMETRIC + MULTILEVEL
-    jobs = plan_quick(ck, names) if ck.tier == "quick" else plan_thorough(ck, names)
-    ck.log("%d planner runs on %d workers" % (len(jobs), workers))
-    with concurrent.futures.ThreadPoolExecutor(workers) as ex:
-        results = list(ex.map(lambda p: run_problem(ck, hbin, p), jobs))
+    results = [f.result() for f in pfut]
+    ex.shutdown()
     bad = 0
     for p, R in zip(jobs, results):
         if not judge(ck, hbin, p, R):
